@@ -1,53 +1,30 @@
-(* Props/C07Known.v — refutations: for each flag claimed `true` in Actual/OrchParActual.v a concrete
-   project shape on which the faithful model differs from the sequential run (closed by computation).
-   The corresponding rendered projects are in corpus/C07 and are replayed on the implementation. *)
+(* Props/C07Known.v — the findings of C07 on the current tree.
+   Still present: q_parent_evidence_raw_path (refutation witness below).
+   Repaired in /repo (known.d: "fixed"): q_par_crossfile_lost, q_worker_swallows_errors - their old witnesses are
+   REGRESSION theorems now (Proofs/OrchParRegress.v, restated in Props/C07.v). *)
 From Coq Require Import Permutation.
 From TL Require Import Lib.Base Lib.GenTypes Model.OrchParTypes Gen.OrchParGen Model.OrchPar Model.OrchParRun
-     Actual.OrchParActual Proofs.OrchParMain.
+     Actual.OrchParActual Proofs.OrchParMain Proofs.OrchParRegress.
 
-Definition dup (f : nat) : violation :=
-  [("rule_id", VStr "dry.duplicate-code"); ("file_path", VStr "m.py"); ("line", VInt false (2 + f)); ("column", VInt false 1);
-   ("message", VStr "Duplicate code (3 lines, 4 occurrences)"); ("severity", VEnum "Severity" "ERROR"); ("suggestion", VNone)].
+Definition none_seen (f : nat) : bool := false.
 
-(* four files sharing a block, two workers (threshold four): check() returns nothing per file, the
-   evidence lives in the worker processes, the parent's finalize() reports nothing *)
-Definition w_report (ev : list nat) : list violation := match ev with [] => [] | _ => map dup ev end.
+(* ---- still present ---- *)
+(* the evidence loop of the parent decides built-in exclusion on the path as given, lint_file on the path inside
+   the project: the flag is effective *)
+Theorem C07_parent_loop_differs_from_lint_file : parent_exclusion_like_lint_file = false /\ parent_restricts orchpar_actual = true.
+Proof. split; reflexivity. Qed.
 
-Theorem C07_crossfile_lost_refuted :
-  par_run nat nat (fun _ => Some []) (fun f => f) w_report orchpar_actual (Some 2) 16 [0;1;2;3] [0;1;2;3] = Some []
+(* a project that lives under a directory named like a built-in exclusion (build/, dist/, venv/ ...) and is addressed
+   by absolute paths: four files sharing a block, two workers; every file is linted, the parent visits none *)
+Theorem C07_parent_evidence_raw_path_refuted :
+  par_run nat nat (fun _ => Some []) (fun f => f) w_report none_seen orchpar_actual (Some 2) 16 [0;1;2;3] [0;1;2;3] = Some []
   /\ seq_run nat nat (fun _ => Some []) (fun f => f) w_report [0;1;2;3] = Some (map dup [0;1;2;3])
-  /\ ~ out_equiv (par_run nat nat (fun _ => Some []) (fun f => f) w_report orchpar_actual (Some 2) 16 [0;1;2;3] [0;1;2;3])
-                 (seq_run nat nat (fun _ => Some []) (fun f => f) w_report [0;1;2;3]).
+  /\ ~ out_equiv (par_run nat nat (fun _ => Some []) (fun f => f) w_report none_seen orchpar_actual (Some 2) 16 [0;1;2;3] [0;1;2;3])
+                 (seq_run nat nat (fun _ => Some []) (fun f => f) w_report [0;1;2;3])
+  /\ exit_code (FStartsWith "dry.", 1, 0) (par_run nat nat (fun _ => Some []) (fun f => f) w_report none_seen orchpar_actual (Some 2) 16 [0;1;2;3] [0;1;2;3]) = 0
+  /\ exit_code (FStartsWith "dry.", 1, 0) (seq_run nat nat (fun _ => Some []) (fun f => f) w_report [0;1;2;3]) = 1.
 Proof.
-  split; [reflexivity|]. split; [reflexivity|].
+  split; [reflexivity|]. split; [reflexivity|]. split; [|split; reflexivity].
   vm_compute. intros H. apply Permutation_length in H. discriminate H.
 Qed.
 
-(* the exit status of `thailint dry` differs with it: 0 with --parallel, 1 without *)
-Theorem C07_crossfile_lost_exit_refuted :
-  exit_code (FStartsWith "dry.", 1, 0) (par_run nat nat (fun _ => Some []) (fun f => f) w_report orchpar_actual None 2 [0;1;2;3] [0;1;2;3]) = 0
-  /\ exit_code (FStartsWith "dry.", 1, 0) (seq_run nat nat (fun _ => Some []) (fun f => f) w_report [0;1;2;3]) = 1.
-Proof. split; reflexivity. Qed.
-
-(* below the threshold (three files, two workers) the same project is reported in full: the outcome
-   depends on the file count *)
-Theorem C07_crossfile_kept_below_threshold :
-  par_run nat nat (fun _ => Some []) (fun f => f) w_report orchpar_actual (Some 2) 16 [0;1;2] [0;1;2] = Some (map dup [0;1;2]).
-Proof. reflexivity. Qed.
-
-(* the handlers of the current tree catch everything: the flag is effective *)
-Theorem C07_handlers_swallow_everything : errors_surface = false /\ swallows orchpar_actual = true.
-Proof. split; reflexivity. Qed.
-
-(* an invalid configuration value: lint_file raises ValueError in every file; the sequential run
-   raises (CLI: exit 2), the parallel run returns no violation (CLI: exit 0) *)
-Theorem C07_errors_swallowed_refuted :
-  par_run nat nat (fun _ => None) (fun f => f) (fun _ => []) orchpar_actual (Some 1) 16 [0;1] [0;1] = Some []
-  /\ seq_run nat nat (fun _ => None) (fun f => f) (fun _ => []) [0;1] = None
-  /\ exit_code (FStartsWith "dry.", 1, 0) (Some []) = 0 /\ exit_code (FStartsWith "dry.", 1, 0) None = 2.
-Proof. repeat split; reflexivity. Qed.
-
-(* with the flag off the model propagates the error *)
-Theorem C07_errors_propagate_when_fixed :
-  par_run nat nat (fun _ => None) (fun f => f) (fun _ => []) (with_flag 1 orchpar_actual) (Some 1) 16 [0;1] [0;1] = None.
-Proof. reflexivity. Qed.
